@@ -277,6 +277,7 @@ def value_order_arms(ctx):
     if len(cs) != 1: raise Broken(f'Ord for JsonValue::cmp: {cs}')
     F = ctx.fns[cs[0]]
     enums_ord = ex.enums.setdefault('Ordering', ['Less', 'Equal', 'Greater'])
+    objfmt = {'seen': False, 'paths': 0}
     for ia, na in enumerate(JV):
         for ib, nb in enumerate(JV):
             st = State()
@@ -286,8 +287,12 @@ def value_order_arms(ctx):
                 run.paths += 1
                 if d.status == 'infeasible': continue
                 hav = (d.havoc or [None])[0]
-                if na == 'Object' and nb == 'Object' and any('Vec<std::string::String>' in h or 'collect' in h or 'format' in h or 'keys' in h for h in (d.havoc or [])):
-                    continue            # the object arm (len, sorted keys, printed text) is outside this obligation
+                if na == 'Object' and nb == 'Object':
+                    # the object arm (len, sorted keys, printed text) is followed only as far as: objects with the same keys are decided
+                    # by comparing the two *printed texts* - a symmetric rule, whatever order the members are stored in
+                    if d.status == 'returned' and any(e[0] == 'payload_cmp' and e[1] == 'string' for e in d.events) and any('format' in h for h in (d.havoc or [])): objfmt['seen'] = True
+                    objfmt['paths'] += 1
+                    if any('Vec<std::string::String>' in h or 'collect' in h or 'format' in h or 'keys' in h for h in (d.havoc or [])): continue
                 fam.obligations += 1; fam.paths += 1; fam.witnesses += 1
                 why = None
                 if d.status != 'returned': why = f'{d.status} {d.notes[-1:]}'
@@ -317,6 +322,11 @@ def value_order_arms(ctx):
                     if na != nb and len(fam.samples) < 2: fam.add_sample({'pair': f'{na} vs {nb}', 'verdict': 'rank order'})
                 elif not any(c.role == f'order:{na}:{nb}' for c in fam.candidates):
                     fam.candidates.append(Candidate(fam.name, f'order:{na}:{nb}', f'JsonValue::cmp({na}, {nb}): {why}', {'a': na, 'b': nb}, unmodelled=hav))
+    if objfmt['paths'] and not objfmt['seen']:
+        fam.obligations += 1; fam.witnesses += 1
+        fam.candidates.append(Candidate(fam.name, 'order:Object:Object', 'JsonValue::cmp(Object, Object): objects with the same keys are not decided by comparing their printed texts (a rule that walks the members of one side depends on the order they are stored in)', {'a': 'Object', 'b': 'Object'}, unmodelled='object arm'))
+    elif objfmt['paths']:
+        fam.obligations += 1; fam.witnesses += 1; fam.discharged += 1
     run.absorb(ex)
     from .cli import run_jawk, show
     SAMPLE = {'Null': ['null'], 'Boolean': ['false', 'true'], 'String': ['"a"', '"b"', '"ab"', '"\U0001F600"', '"\uff21"', '"\ue000x"', '"\u00e9"', '"Z"', '""'], 'Number': ['1', '2', '-1', '1.5'], 'Object': ['{}', '{"a":1}'], 'Array': ['[2]', '[1,5]', '[1]', '[]', '[1,0,0]']}
@@ -334,6 +344,17 @@ def value_order_arms(ctx):
         if rx == 4: return 0
         return (x > y) - (x < y)
     for c in fam.candidates:
+        if c.role == 'order:Object:Object':
+            # one total order: antisymmetric on objects with permuted members, and sorting does not depend on the arrival order
+            c.status = 'inconclusive'
+            PAIRS = [('{"x":1,"y":9}', '{"y":5,"x":0}'), ('{"x":2,"y":0}', '{"y":5,"x":0}'), ('{"a":1,"b":2}', '{"b":1,"a":2}'), ('{"a":[1],"b":null}', '{"b":false,"a":[0]}')]
+            for x, y in PAIRS:
+                r = run_jawk(ctx, ['--select', f'(< {x} {y})=a', '--select', f'(< {y} {x})=b', '--select', f'(sort [{x},{y}])=s', '--select', f'(sort [{y},{x}])=t', '--style', 'consise'], b'null')
+                try: o = json.loads(show(r['stdout']))
+                except Exception: o = {}
+                if r['rc'] != 0 or (o.get('a') and o.get('b')) or (o.get('a') is False and o.get('b') is False and x != y and o.get('s') != o.get('t')) or json.dumps(o.get('s')) != json.dumps(o.get('t')):
+                    c.status = 'reproduced'; c.unmodelled = None; c.replay = {'x': x, 'y': y, 'lt_xy': o.get('a'), 'lt_yx': o.get('b'), 'sort_xy': o.get('s'), 'sort_yx': o.get('t')}; break
+            continue
         vals = sorted(set(SAMPLE[c.model['a']] + SAMPLE[c.model['b']]))
         arr = [json.loads(v) for v in vals]
         r = run_jawk(ctx, ['--select', '(sort .)=r', '--style', 'consise', '--utf8-strings'], json.dumps(arr, ensure_ascii=False).encode())
